@@ -3,6 +3,8 @@ package eval
 import (
 	"errors"
 	"fmt"
+	"maps"
+	"slices"
 
 	"github.com/cedar-policy/cedar-go/internal/consts"
 	"github.com/cedar-policy/cedar-go/internal/extensions"
@@ -727,15 +729,19 @@ func (n *isEmptyEval) Eval(env Env) (types.Value, error) {
 // recordLiteralEval
 type recordLiteralEval struct {
 	elements map[types.String]Evaler
+	keys     []types.String // sorted, so that the entries are always evaluated in the same order
 }
 
 func newRecordLiteralEval(elements map[types.String]Evaler) *recordLiteralEval {
-	return &recordLiteralEval{elements: elements}
+	return &recordLiteralEval{elements: elements, keys: slices.Sorted(maps.Keys(elements))}
 }
 
 func (n *recordLiteralEval) Eval(env Env) (types.Value, error) {
 	vals := types.RecordMap{}
-	for k, en := range n.elements {
+	// Evaluate in key order (as the reference implementation does): with map iteration order a record
+	// with two failing entries reported a different error from run to run.
+	for _, k := range n.keys {
+		en := n.elements[k]
 		v, err := en.Eval(env)
 		if err != nil {
 			return zeroValue(), err
